@@ -79,6 +79,36 @@ def run_world_strict(case, ctx):
 				if not ok:
 					classes.add('world_no_common_ancestor')
 			preds.append(out)
+			if variant == 'b' and case.get('reassign') is not None:
+				# the loaded (persisted) objects are edited in memory - some genomes are moved to another taxon, never flushed -
+				# and classified again directly: the result must follow the objects as they are now
+				from gambit.classify import classify
+				gen = list(db.genomes)
+				keys = [f['key'] for f in W.genome_fields]
+				idx = [keys.index(g.key) for g in gen]
+				taxa_by_key = {t.key: t for t in db.genomeset.taxa}
+				ntax = len(W.taxa)
+				taxon_of = {j: W.w['genomes'][j]['taxon'] for j in range(len(keys))}
+				for a, b in case['reassign']:
+					i = a % len(gen)
+					t_new = b % ntax
+					gen[i].taxon = taxa_by_key[f'world/t{t_new}']
+					taxon_of[idx[i]] = t_new
+				classes.add('persisted_genomes_reassigned')
+				for qi in range(len(qs)):
+					dists = np.array([W.dist(qi, idx[i]) for i in range(len(gen))], dtype=np.float32)
+					try:
+						cr = classify(gen, dists, strict=True)
+					except Exception as e:
+						raise Violation('exception', f'classify(strict) on edited objects raised {type(e).__name__}: {e}', case)
+					matched = [F.match(taxon_of[idx[i]], W.dist(qi, idx[i])) for i in range(len(gen))]
+					M = {m for m in matched if m is not None}
+					cons, others, ok = F.consensus(M)
+					got = None if cr.predicted_taxon is None else cr.predicted_taxon.key
+					want = None if cons is None else f'world/t{cons}'
+					if got != want or cr.success != ok:
+						raise Violation('world_reassigned', f'after moving genomes {case["reassign"]} (genome index, new taxon) in memory, query {qi}: predicted {got} '
+						                f'success={cr.success}, expected {want} success={ok}; matched taxa per genome (database order) {matched}', case)
 		finally:
 			try:
 				db.signatures.close(); db.session.close(); db.session.get_bind().dispose()
@@ -249,7 +279,8 @@ def gen_case(draw, tier):
 		wthr = st.one_of(st.just({'kind': 'none'}), st.floats(0.5, 1).map(lambda v: {'kind': 'val', 'v': v}), st.just({'kind': 'val', 'v': 1.0}),
 		                 st.builds(lambda i, k: {'kind': k, 'i': i}, st.integers(0, 60), st.sampled_from(['dist', 'dist_up', 'dist_down32'])))
 		return {'kind': 'world_strict', 'world': draw(Wd.world(max_refs=7, min_refs=2, max_queries=3, nasty_names=False, thr=wthr)),
-		        'perm2': draw(st.integers(1001, 2000))}
+		        'perm2': draw(st.integers(1001, 2000)),
+		        'reassign': draw(st.one_of(st.none(), st.lists(st.tuples(st.integers(0, 6), st.integers(0, 13)).map(list), min_size=1, max_size=3)))}
 	thr = st.one_of(
 		st.just({'kind': 'none'}),
 		st.floats(0.3, 1).map(lambda v: {'kind': 'val', 'v': v}),
